@@ -62,7 +62,7 @@ Lemma add_deposit_mig : forall pid a amt s s', add_deposit pid a amt s = Ok s' -
 Proof.
   intros pid a amt s s'. unfold add_deposit. destruct (sget Z.eqb pid (props (gov s))) as [p|]; [|discriminate].
   destruct (p_status p); try discriminate;
-    (destruct (bal_of s a (bond_denom (cfg s)) <? amt); [discriminate|]; intros H; inversion H; cbn [mig set_gov]; apply pay_mig).
+    (destruct (bal_of s a (bond_denom (cfg s)) - locked_of s a (bond_denom (cfg s)) <? amt); [discriminate|]; intros H; inversion H; cbn [mig set_gov]; apply pay_mig).
 Qed.
 
 Lemma submit_mig : forall a amt s s', submit_proposal a amt s = Ok s' -> mig s' = mig s.
@@ -156,7 +156,13 @@ Definition ex_init : state :=
     [] [] [] []
     [(1, UKubd 1 13); (2, UKubd 9 13); (3, UKubd 1 13)]
     [] [] [] [] [] 1
-    [] [] [].
+    [] [] [] [].
+
+(* the same state with 2000 of source 2's 5000 still locked by a vesting schedule *)
+Definition ex_vesting : state :=
+  {| cfg := cfg ex_init; now := now ex_init; height := height ex_init; accts := accts ex_init; vals := vals ex_init;
+     bal := bal ex_init; start := start ex_init; stake := stake ex_init; gov := gov ex_init; mig := mig ex_init;
+     locked := [((2, 0), 2000)] |}.
 
 Definition no_recover : Z -> Z -> unit -> option Z := fun _ _ _ => None.
 
@@ -240,6 +246,16 @@ Proof.
   split; [apply (matchb_ok k2_eqb k2_eqb_ok); vm_compute; reflexivity|].
   split; [apply (matchb_ok k2_eqb k2_eqb_ok); vm_compute; reflexivity|].
   repeat split; vm_compute; reflexivity.
+Qed.
+
+Theorem locked_example :
+  wf ex_vesting /\ bal_of ex_vesting 2 0 = 5000 /\ locked_of ex_vesting 2 0 = 2000 /\
+  migrate_tx unit sig_any ex_vesting 2 6 (Some tt) = Err EFunds /\
+  (exists s', migrate_tx unit sig_any ex_vesting 1 5 (Some tt) = Ok s') /\
+  (exists s', migrate_tx unit sig_any ex_init 2 6 (Some tt) = Ok s' /\ bal_of s' 2 0 = 0 /\ bal_of s' 6 0 = 5000).
+Proof.
+  split; [vm_compute; reflexivity|]. split; [vm_compute; reflexivity|]. split; [vm_compute; reflexivity|].
+  split; [vm_compute; reflexivity|]. split; eexists; [|split; [|split]]; vm_compute; reflexivity.
 Qed.
 
 (* the portfolio theorem is about something: the example's source holds two denominations, a delegation with
